@@ -16,7 +16,9 @@ ATTRS = [
     {"a": 1, "b": "x"},
     {"name": "näme☃", "ctl": "tab\there\nnl\x01", "none": None, "t": True, "f": False, "pi": 3.25, "big": 10 ** 20,
      # keys that coincide with read-only properties of the node classes, and one-letter keys (substrings of the link attributes' names)
-     "size": 7, "path": "p/q", "is_leaf": "no", "e": 2, "n": 3},
+     "size": 7, "path": "p/q", "is_leaf": "no", "e": 2, "n": 3,
+     # user attributes that merely look name-mangled: only the two link attributes are bookkeeping
+     "_m__x": 4, "_NodeMixin__extra": 5},
     {"nested": {"k": [1, 2, {"z": None}], "e": []}, "lst": [[], [1, [2]]], "s": ""},
     {"x": 0, "_private": 5, "Children": "not the key"},
 ]
@@ -105,7 +107,7 @@ def run_case(c):
     nodes, cls = build(tup(c["shape"]), c["cls"], json_only=(prop == "C11"))
     start = nodes[c["start"]]
     ml = c["maxlevel"]
-    childiters = {"list": list, "reversed": lambda ch: list(reversed(ch))}
+    childiters = {"list": list, "reversed": lambda ch: list(reversed(ch)), "empty": lambda ch: []}
     attriters = {"none": None, "sorted": lambda it: sorted(it, key=lambda kv: kv[0]), "drop_": lambda it: [(k, v) for k, v in it if not k.startswith("_")]}
     dictclss = {"dict": dict, "ordered": OrderedDict}
     ci, ai, dc = childiters[c["childiter"]], attriters[c["attriter"]], dictclss[c["dictcls"]]
@@ -188,6 +190,9 @@ def run_case(c):
         for t in (t1, t2):
             if json.dumps(DictExporter().export(t), sort_keys=True) != json.dumps(ref_de.export(start), sort_keys=True):
                 return "import_(export(t)) is not isomorphic to t"
+            # the same comparison against the harness's own reference export (independent of the real DictExporter)
+            if json.dumps(ref_export(t, 1, None, list, dict, list), sort_keys=True) != json.dumps(ref_export(start, 1, ml, ci, dict, list), sort_keys=True):
+                return "round trip lost or changed attributes, shape or child order"
             if ml is None and c["childiter"] == "list" and count(t) != count(start):
                 return "round trip changed the number of nodes: %d -> %d" % (count(start), count(t))
     return None
@@ -201,7 +206,7 @@ def search(spec):
             for sh in Q.shapes(n):
                 for start in range(n):
                     for ml in [None] + list(range(0, n + 1)):
-                        for ci in ("list", "reversed"):
+                        for ci in ("list", "reversed", "empty"):
                             for ai in (("none", "sorted", "drop_") if prop == "C10" else ("none",)):
                                 for dc in (("dict", "ordered") if prop == "C10" else ("dict",)):
                                     for opts in ((0,) if prop == "C10" else (0, 1, 2)):
